@@ -363,6 +363,24 @@ theorem tiles_readAt (P : Params) (hc : 0 < P.chunk) (o n : Nat) (hn : 0 < n) (h
     unfold progress; omega
   rwa [h0] at this
 
+/-- For the chunks of `ReadAt(o, n)` the Go expression
+`chunk.size() - upperUnread - lowerUnread` never goes negative (so the truncated subtraction of
+the model is the Go integer arithmetic) and `p[base : base+expectedSize]` is inside `p`. -/
+theorem place_bounds (P : Params) (hc : 0 < P.chunk) (o n : Nat) (hn : 0 < n) (ho : o ≤ P.size)
+    (c : Chunk) (h : c ∈ chunksFrom P (o + n - 1) (P.size + 1) (floorU o P.chunk)) :
+    (o - c.b) + ((c.e + 1) - (o + n)) ≤ c.size ∧
+    (place o n c).base + (place o n c).expected ≤ n ∧
+    (place o n c).lower + (place o n c).expected ≤ c.size := by
+  rw [chunksFrom_eq_chunkList P hc _ _ _ (by omega)] at h
+  obtain ⟨hg, h1, h2⟩ := gridChunk_of_mem_chunkList P hc _ _ (floorU_mod ..) c h
+  have hle := hg.le hc
+  have hfl := lt_floorU_add o P.chunk hc
+  obtain ⟨_, _, hg3⟩ := hg
+  obtain ⟨p1, p2⟩ := place_closed o n c hle.1 (by omega) (by omega)
+  refine ⟨?_, by omega, ?_⟩
+  · simp only [Chunk.size]; omega
+  · simp only [place, Chunk.size] at p1 p2 ⊢; omega
+
 /-! ### writes into the buffer -/
 
 theorem writeAt_length (buf : Bytes) (base : Nat) (seg : Bytes) (h : base + seg.length ≤ buf.length) :
@@ -504,7 +522,7 @@ theorem goodQ_exact (P : Params) (B : Bytes) : GoodQ P B (QExact P B) :=
   ⟨fun _ hg => ⟨rfl, hg⟩, fun _ _ h => by rw [h.1]; exact slice_self_length B _ _⟩
 
 theorem goodQ_prefix (P : Params) (B : Bytes) : GoodQ P B (QPrefix P B) :=
-  ⟨fun c hg => ⟨slice_self_length B _ _, hg⟩, fun _ _ h => h.1⟩
+  ⟨fun _ hg => ⟨slice_self_length B _ _, hg⟩, fun _ _ h => h.1⟩
 
 theorem qprefix_take (P : Params) (B : Bytes) (c : Chunk) (d : Bytes) (k : Nat)
     (h : QPrefix P B c d) : QPrefix P B c (d.take k) := by
